@@ -43,9 +43,10 @@ func (*floatScalar) CoerceIn(v interface{}) (interface{}, error) {
 	case nil:
 		// remains nil
 	case float64:
-		v = float32(tv)
+		// A value beyond the range of a float32 would become infinity.
+		v, err = floatFromFloat64(tv)
 	case float32:
-		// ok as is
+		v, err = floatFromFloat64(float64(tv))
 	case int32:
 		v = float32(tv)
 	case int64:
